@@ -1,1 +1,223 @@
 //! Verification facade: `cache` (feature `verif`).
+//!
+//! Lets an external harness drive the real [`PageCache`] (frames, pin counts, dirty bits, eviction) and a real
+//! [`Pager`] on a database file (allocate / read / write / pin / flush / reopen), and read back the configuration
+//! that ends up in page zero. Thin wrappers only: no logic of their own beyond building frames and copying payload
+//! bytes in and out. The payload of a page is the byte range directly after the overflow-page header.
+
+use crate::{
+    DBConfig,
+    io::{cache::PageCache, disk::FileOperations, pager::Pager},
+    multithreading::frames::{Frame, MemFrame},
+    storage::{
+        core::traits::Allocatable,
+        page::{BtreePage, OVERFLOW_HEADER_SIZE, OverflowPage},
+    },
+    types::PageId,
+};
+use std::{
+    io::{self, Write},
+    path::Path,
+};
+
+/// Offset of the payload inside the raw bytes of a page.
+pub const PAYLOAD_OFFSET: usize = OVERFLOW_HEADER_SIZE;
+
+/// A reference to a frame. Holding one is what "pinning" means for the cache (`Frame::is_free` looks at the
+/// reference count), exactly as the latches and frames held by the B+tree code do.
+pub struct VFrame(MemFrame);
+
+impl VFrame {
+    pub fn page_number(&self) -> PageId {
+        self.0.page_number()
+    }
+    pub fn is_dirty(&self) -> bool {
+        self.0.is_dirty()
+    }
+    /// `true` iff this is the only reference (the cache holds none, nobody else pins it).
+    pub fn is_free(&self) -> bool {
+        self.0.is_free()
+    }
+    pub fn mark_dirty(&self) {
+        self.0.mark_dirty()
+    }
+    /// Copy of the first `n` payload bytes.
+    pub fn read_payload(&self, n: usize) -> Vec<u8> {
+        self.0.with_bytes(|b| b[PAYLOAD_OFFSET..PAYLOAD_OFFSET + n].to_vec())
+    }
+    /// Overwrites the first bytes of the payload. Does not mark the frame dirty.
+    pub fn write_payload(&self, payload: &[u8]) {
+        self.0.with_bytes_mut(|b| b[PAYLOAD_OFFSET..PAYLOAD_OFFSET + payload.len()].copy_from_slice(payload))
+    }
+    /// Size of the whole page in bytes.
+    pub fn page_len(&self) -> usize {
+        self.0.with_bytes(|b| b.len())
+    }
+}
+
+impl Clone for VFrame {
+    fn clone(&self) -> Self {
+        VFrame(self.0.clone())
+    }
+}
+
+/// Builds a fresh (clean, unreferenced) frame of the given page id holding `payload`.
+pub fn new_frame(id: PageId, page_size: usize, payload: &[u8], btree: bool) -> VFrame {
+    let frame = if btree {
+        MemFrame::from(Frame::from(BtreePage::alloc(id, page_size)))
+    } else {
+        MemFrame::from(Frame::from(OverflowPage::alloc(id, page_size)))
+    };
+    let f = VFrame(frame);
+    if !payload.is_empty() {
+        f.write_payload(payload);
+    }
+    f
+}
+
+/// The real page cache.
+pub struct VCache(PageCache);
+
+impl VCache {
+    pub fn new() -> Self {
+        VCache(PageCache::new())
+    }
+    pub fn with_capacity(capacity: usize) -> Self {
+        VCache(PageCache::with_capacity(capacity))
+    }
+    pub fn set_capacity(&mut self, capacity: usize) {
+        self.0.set_capacity(capacity)
+    }
+    pub fn capacity(&self) -> usize {
+        self.0.get_capacity()
+    }
+    pub fn num_frames(&self) -> usize {
+        self.0.num_frames()
+    }
+    /// (hits, misses, evictions) as counted by the cache itself.
+    pub fn stats(&self) -> (u32, u32, u16) {
+        let s = self.0.stats();
+        (s.cache_hits.get(), s.cache_misses.get(), s.frames_evicted.get())
+    }
+    /// `PageCache::insert`: `Ok(evicted frame)` or the I/O error (out of memory).
+    pub fn insert(&mut self, frame: VFrame) -> io::Result<Option<VFrame>> {
+        self.0.insert(frame.0).map(|o| o.map(VFrame))
+    }
+    pub fn get(&self, id: PageId) -> Option<VFrame> {
+        self.0.get(&id).map(VFrame)
+    }
+    pub fn evict(&mut self) -> io::Result<Option<VFrame>> {
+        self.0.evict().map(|o| o.map(VFrame))
+    }
+    pub fn remove(&mut self, id: PageId) -> Option<VFrame> {
+        self.0.remove(id).map(VFrame)
+    }
+    pub fn clear(&mut self) -> Vec<VFrame> {
+        self.0.clear().into_iter().map(VFrame).collect()
+    }
+    pub fn drain(&mut self) -> Vec<VFrame> {
+        self.0.drain().map(VFrame).collect()
+    }
+}
+
+impl Default for VCache {
+    fn default() -> Self {
+        Self::new()
+    }
+}
+
+/// The configuration as it is persisted in (and read back from) page zero.
+#[derive(Debug, Clone, Copy, PartialEq, Eq)]
+pub struct VHeaderConfig {
+    pub page_size: u64,
+    pub cache_size: u64,
+    pub min_keys: u64,
+    pub num_siblings_per_side: u64,
+    pub total_pages: u64,
+}
+
+/// A real pager on a real file (plus its write-ahead log in the same directory).
+pub struct VPager(Pager);
+
+impl VPager {
+    /// `Pager::from_config`: creates the file and writes page zero from the configuration.
+    pub fn create(path: impl AsRef<Path>, config: DBConfig) -> io::Result<Self> {
+        Pager::from_config(config, path).map(VPager)
+    }
+    /// `Pager::open`.
+    pub fn open(path: impl AsRef<Path>) -> io::Result<Self> {
+        Pager::open(path).map(VPager)
+    }
+    pub fn header_config(&self) -> VHeaderConfig {
+        let h = self.0.header_unchecked();
+        VHeaderConfig {
+            page_size: h.page_size as u64,
+            cache_size: h.cache_size as u64,
+            min_keys: h.min_keys as u64,
+            num_siblings_per_side: h.num_siblings_per_side as u64,
+            total_pages: h.total_pages,
+        }
+    }
+    pub fn page_size(&self) -> usize {
+        self.0.page_size()
+    }
+    /// `Pager::allocate_page::<OverflowPage>`.
+    pub fn alloc(&mut self) -> io::Result<PageId> {
+        self.0.allocate_page::<OverflowPage>()
+    }
+    /// `Pager::read_page::<OverflowPage>`; the returned frame stays pinned until it is dropped.
+    pub fn read(&mut self, id: PageId) -> io::Result<VFrame> {
+        self.0.read_page::<OverflowPage>(id).map(VFrame)
+    }
+    /// `Pager::try_with_page_mut::<OverflowPage>` writing `payload` at the start of the page's data.
+    pub fn write(&mut self, id: PageId, payload: &[u8]) -> io::Result<()> {
+        self.0.try_with_page_mut::<OverflowPage, _, _>(id, |p| {
+            p.data_mut()[..payload.len()].copy_from_slice(payload);
+            Ok(())
+        })
+    }
+    /// `Pager::with_page::<OverflowPage>` copying the first `n` data bytes.
+    pub fn read_payload(&mut self, id: PageId, n: usize) -> io::Result<Vec<u8>> {
+        self.0.with_page::<OverflowPage, _, _>(id, |p| p.data()[..n].to_vec())
+    }
+    /// `Pager::dealloc_page::<OverflowPage>`.
+    pub fn dealloc(&mut self, id: PageId) -> io::Result<()> {
+        self.0.dealloc_page::<OverflowPage>(id)
+    }
+    /// `<Pager as Write>::flush`: the checkpoint (write back every dirty frame, sync the header, truncate the log).
+    pub fn flush(&mut self) -> io::Result<()> {
+        self.0.flush()
+    }
+}
+
+/// What `DBConfig::new` makes of its arguments: (page_size, cache_size, pool_size, min_keys, siblings).
+pub fn config_new(page: usize, cache: usize, pool: usize, min_keys: usize, siblings: usize) -> [usize; 5] {
+    let c = DBConfig::new(page, cache, pool, min_keys, siblings);
+    [c.page_size, c.cache_size, c.pool_size, c.min_keys_per_page, c.num_siblings_per_side]
+}
+
+/// What the builder makes of the same arguments.
+pub fn config_builder(page: usize, cache: usize, pool: usize, min_keys: usize, siblings: usize) -> [usize; 5] {
+    let c = DBConfig::builder()
+        .page_size(page)
+        .cache_size(cache)
+        .pool_size(pool)
+        .min_keys_per_page(min_keys)
+        .num_siblings_per_side(siblings)
+        .build();
+    [c.page_size, c.cache_size, c.pool_size, c.min_keys_per_page, c.num_siblings_per_side]
+}
+
+/// Constants the Lean model takes from the code: (MIN_PAGE_SIZE, MAX_PAGE_SIZE, DEFAULT_CACHE_SIZE,
+/// DEFAULT_PAGE_SIZE, default min keys, default siblings per side of `DBConfig::default()`).
+pub fn config_constants() -> [usize; 6] {
+    let d = DBConfig::default();
+    [
+        crate::common::MIN_PAGE_SIZE,
+        crate::common::MAX_PAGE_SIZE,
+        crate::common::DEFAULT_CACHE_SIZE,
+        d.page_size,
+        d.min_keys_per_page,
+        d.num_siblings_per_side,
+    ]
+}
